@@ -1,0 +1,24 @@
+//go:build verif
+
+package fzf
+
+import "github.com/junegunn/fzf/src/util"
+
+// Verification hooks (build tag verif) for the loading side of chunklist.go / core.go.
+
+// VerifHeaderItemBuilder is the ItemBuilder of core.go (the one without --with-nth)
+// reduced to what its invocations share: the header lines taken so far and the
+// running item index. No locking of its own, exactly like the closure in core.go:
+// ChunkList.Push is what serialises it.
+func VerifHeaderItemBuilder(next *int32, headerLines int, header *[]string) ItemBuilder {
+	return func(item *Item, data []byte) bool {
+		if len(*header) < headerLines {
+			*header = append(*header, string(data))
+			return false
+		}
+		item.text = util.ToChars(data)
+		item.text.Index = *next
+		*next++
+		return true
+	}
+}
